@@ -212,6 +212,7 @@ fn literals(n: &Num, rng: &mut Rng) -> Vec<String> {
 pub fn gen_case(rng: &mut Rng, idx: usize, thorough: bool) -> Value {
     // idx 0..: deterministic families first, then random
     let w = if thorough { 130 } else { 40 };
+    if idx % 6 == 4 { return json!({"kind": "float", "seed": rng.next() % 1_000_000_000, "n": if thorough { 4000 } else { 800 }}); }
     if idx % 6 == 5 { return json!({"kind": "lexi", "seed": rng.next() % 1_000_000_000, "n": if thorough { 3000 } else { 600 }}); }
     match idx % 5 {
         4 => json!({"kind": "dec-near", "seed": rng.next() % 1_000_000_000, "n": if thorough { 400 } else { 120 }}),
@@ -424,6 +425,36 @@ pub fn run_case(_ctx: &Ctx, case: &Value, tag: usize, rep: &mut Report, mb: &mut
                 }
             }
             rep.sample(json!({"kind": "int-random"}));
+        }
+        "float" => {
+            // tie of the Lean model of rx_float_range (all cases; theorems for the helpers and the positive bounded
+            // case) to the code: the printed pattern must be string-equal for every pair of decimal bounds
+            let mut rng = Rng::new(case["seed"].as_u64().unwrap());
+            let ints: [i64; 14] = [-120, -11, -10, -2, -1, 0, 1, 2, 9, 10, 11, 99, 100, 1000];
+            let fr = ["", "", ".05", ".1", ".15", ".2", ".25", ".5", ".59", ".75", ".9", ".99", ".125", ".001", ".309", ".0000000000000000000000001", ".1000000000000000055511151231257827"];
+            let mut pick = |rng: &mut Rng, near: Option<i64>| -> String {
+                let i = match near { Some(v) if rng.chance(2, 3) => v, _ => ints[rng.below(ints.len())] };
+                let f = fr[rng.below(fr.len())];
+                if i < 0 || (i == 0 && rng.chance(1, 4) && !f.is_empty()) { format!("-{}{}", -i, f) } else { format!("{i}{f}") }
+            };
+            let canon = |s: &str| -> Option<f64> { let f: f64 = s.parse().ok()?; if format!("{f}") == s { Some(f) } else { None } };
+            for _ in 0..case["n"].as_u64().unwrap() {
+                let a = pick(&mut rng, None);
+                let near = a.split('.').next().unwrap().parse::<i64>().unwrap_or(0);
+                let b = pick(&mut rng, Some(near));
+                let (l, r) = match rng.below(6) { 0 => (Some(a), None), 1 => (None, Some(b)), _ => (Some(a), Some(b)) };
+                let (lf, rf) = (l.as_deref().map(canon), r.as_deref().map(canon));
+                if lf == Some(None) || rf == Some(None) { rep.count("float.non-canonical-bound-skipped"); continue; }
+                let (li, ri) = (rng.chance(1, 2), rng.chance(1, 2));
+                rep.evaluations += 1;
+                let got = match std::panic::catch_unwind(|| llguidance::verif::rx_float_range(lf.flatten(), rf.flatten(), li, ri)) {
+                    Ok(Ok(p)) => { rep.nontrivial(format!("float|{l:?}|{r:?}|{li}|{ri}")); format!("ok {p}") }
+                    Ok(Err(_)) => "err".to_string(),
+                    Err(_) => { rep.fail("oracle", "c08:float-range-panic", format!("rx_float_range panicked on ({l:?}, {r:?}, {li}, {ri})"), json!({"kind": "float"})); continue; }
+                };
+                mb.push(format!("num float {} {} {} {}", l.as_deref().unwrap_or("none"), r.as_deref().unwrap_or("none"), li as u8, ri as u8), got, tag);
+            }
+            rep.sample(json!({"kind": "float"}));
         }
         "lexi" => {
             // tie of the Lean model of lexi_x_to_9 / lexi_0_to_x / lexi_range (theorems lexi*_lang) to the code
